@@ -137,4 +137,38 @@ def serializeFields (b : Bitmap) : List (List Nat) :=
 def serializeInto (b : Bitmap) (w : SWriter) : Bool × SWriter := w.writeFields (serializeFields b)
 
 end Bitmap
+
+/-! ## Mirrored writer path (fidelity audit)
+
+`Bitmap.serializeFields` writes the cardinality field with the truncated `Nat` subtraction; the mirrored field list
+carries the `u64` arithmetic of `cardField` (Ser.lean): a `none` field is the overflow panic raised while the ARGUMENT
+of that `write_u16` is evaluated — i.e. after every earlier `write_*(..)?` has returned `Ok`, so a sink that fails
+earlier still yields `Err`, not the panic.  `Lemmas/FidelityCodec.lean`: equal to `serializeInto` when no container is
+empty. -/
+
+/-- a sequence of `write_all(field)?`; outer `none` = panic while evaluating a field -/
+def SWriter.writeFieldsM : SWriter → List (Option (List Nat)) → Option (Bool × SWriter)
+  | w, [] => some (true, w)
+  | _, none :: _ => none
+  | w, some f :: fs =>
+    match w.writeAll f with
+    | (true, w') => w'.writeFieldsM fs
+    | (false, w') => some (false, w')
+
+namespace Bitmap
+
+/-- serialization.rs:70-73 -/
+def descrFieldsM (ovf : Bool) (b : Bitmap) : List (Option (List Nat)) :=
+  b.flatMap fun c => [some (u16le c.key), (cardField ovf c.len).map u16le]
+
+/-- serialization.rs:66-104, one entry per `write_u16/u32/u64` call -/
+def serializeFieldsM (ovf : Bool) (b : Bitmap) : List (Option (List Nat)) :=
+  [some (u32le 12346), some (u32le (b.length % 4294967296))]
+    ++ descrFieldsM ovf b ++ (offsetFields b (8 + 8 * b.length)).map some ++ (payloadFields b).map some
+
+/-- `serialize_into(&mut writer)` on a limited, scheduled writer; `none` = panic -/
+def serializeIntoM (ovf : Bool) (b : Bitmap) (w : SWriter) : Option (Bool × SWriter) :=
+  w.writeFieldsM (serializeFieldsM ovf b)
+
+end Bitmap
 end Roaring
